@@ -206,21 +206,21 @@ func (c *Collector) Finish(outDir string, tier string, seed int, wall float64, e
 		rules[o.Rule]++
 	}
 	cov := map[string]any{
-		"explanation":     explanation,
-		"obligations":     len(c.Obls),
-		"discharged":      nDis,
-		"violated":        nVio,
-		"undecided":       nUnd,
-		"known_findings":  len(knownHit),
-		"samples":         samples,
-		"rules":           rules,
-		"counts":          c.Counts,
-		"trusted_base":    trusted,
-		"checker_cmd":     strings.Join(os.Args, " "),
-		"notes":           c.Notes,
-		"evaluations":     len(c.Obls),
+		"explanation":         explanation,
+		"obligations":         len(c.Obls),
+		"discharged":          nDis,
+		"violated":            nVio,
+		"undecided":           nUnd,
+		"known_findings":      len(knownHit),
+		"samples":             samples,
+		"rules":               rules,
+		"counts":              c.Counts,
+		"trusted_base":        trusted,
+		"checker_cmd":         strings.Join(os.Args, " "),
+		"notes":               c.Notes,
+		"evaluations":         len(c.Obls),
 		"distinct_nontrivial": len(rules),
-		"rule":            "one evaluation per (rule, construct) obligation resolved from the current source; distinct_nontrivial counts distinct rules with at least one instance",
+		"rule":                "one evaluation per (rule, construct) obligation resolved from the current source; distinct_nontrivial counts distinct rules with at least one instance",
 	}
 	for k, v := range extra {
 		cov[k] = v
